@@ -233,7 +233,7 @@ def run(ctx):
     at = enum_table(src, 'AttributeType')
     kinds = getter_kinds(m)
     gf = getter_fields(m)
-    ctx.count('getter_arms', len(kinds), 30)
+    ctx.count('getter_arms', len(kinds), 10)
     # comparisons involving the stored value, with the names established on the path
     arms = {}      # name or '<generic>' -> list of (node, compare expr, other operand kind)
     from ..guards import is_none_test
@@ -308,7 +308,7 @@ def run(ctx):
                       '%s: stored kind %s compared with request kind %s' % (nm, sk, ok_),
                       'filter on %s compares a %s request operand (%s) with the %s stored value: a KMIP wrapper object never equals a raw value, so the filter can never match (or never reject)'
                       % (nm, ok_, U(other), sk))
-    ctx.count('filter_comparisons', n_cmp, 10)
+    ctx.count('filter_comparisons', n_cmp, 5)
     # ---------------- R3 exhaustiveness
     for nm in FILTERABLE:
         k = kinds.get(nm)
